@@ -163,7 +163,7 @@ func (c *Ctx) zero(t types.Type) Value {
 		if t.Kind() == types.UnsafePointer {
 			return Ptr{}
 		}
-		if t.Kind() == types.UntypedNil {
+		if t.Kind() == types.UntypedNil || t.Kind() == types.Invalid {
 			return nil
 		}
 		if t.Kind() == types.Complex128 || t.Kind() == types.Complex64 {
